@@ -134,6 +134,12 @@ def analyse(D: decoders.Decoders, e, run: Run, facts_out=None) -> int:
                 if key in seen:
                     continue
                 seen.add(key)
+                opaque_fn = next((x.a[0].a[0] for x in sym.walk(t) if x.op == "call" and x.a[0].op == "func"), None)
+                if opaque_fn is not None:
+                    # a helper of the package that could not be interpreted in place (loops with early returns ...): which
+                    # of its arguments the shown value comes from is not known
+                    raise AnalysisError(f"{e.key} ({scope}): position {p} is computed by {opaque_fn.rsplit('.', 1)[1]}(...), a helper "
+                                        f"the interpreter could not follow: the provenance of the value is not decided")
                 atoms = classify(t)
                 # R1 is about the value shown: selectors (ite conditions) may look at other words, e.g. the socket
                 # option name is decoded symbolically only when the level word says SOL_SOCKET
